@@ -247,6 +247,10 @@ func runPath(prog *ssa.Program, fn *ssa.Function, cfg ExploreConfig, solver *Sol
 		if r == nil {
 			return
 		}
+		for _, l := range p.coverPending {
+			delete(p.covers, l)
+		}
+		p.coverPending = nil
 		switch r := r.(type) {
 		case pathAbort:
 			p.endKind, p.endMsg = r.kind, r.msg
@@ -280,6 +284,7 @@ func runPath(prog *ssa.Program, fn *ssa.Function, cfg ExploreConfig, solver *Sol
 		i.ensureInit(fn.Pkg)
 	}
 	callSSA(i, nil, token.NoPos, fn, nil, nil)
+	p.resolveCovers()
 	return p
 }
 
